@@ -162,7 +162,7 @@ func (s *fstate) killX(root types.Object, path []string, viaCall bool) *fstate {
 			continue // the variable still holds the caller's value; only a reassignment ends that
 		}
 		hit := mentions(f, root, path)
-		if hit && f.S == "def" && (len(path) > 0 || viaCall) && len(f.A) >= 2 && f.A[0].K == "var" && f.A[0].Obj == root {
+		if hit && (f.S == "def" || f.S == "defx") && (len(path) > 0 || viaCall) && len(f.A) >= 2 && f.A[0].K == "var" && f.A[0].Obj == root {
 			// a field store through v does not change where the pointer v came from
 			hit = false
 			for _, a := range f.A[1:] {
@@ -1361,6 +1361,19 @@ func (f *e1func) transfer(st *fstate, n ast.Node, sites *[]*e1site) []*fstate {
 				}
 			}
 		}
+		// a definition is also stated with the variables of its right-hand side replaced by their own definitions
+		// (a temporary introduced for an argument does not hide what was passed)
+		nadd := len(add)
+		for i := 0; i < nadd; i++ {
+			if add[i].S == "def" && len(add[i].A) >= 2 {
+				for _, x := range f.expandDefs(st, add[i].A[1]) {
+					// "defx": a derived spelling of a definition; patterns asking for def(...) accept it, the engine's own
+					// look-ups (status of a returned variable, ...) use the original definition only
+					nf := &Term{K: "fact", S: "defx", A: append([]*Term{add[i].A[0], x}, add[i].A[2:]...)}
+					add = append(add, nf)
+				}
+			}
+		}
 		if ns := st.with(add...); ns != nil {
 			st = ns
 		}
@@ -1958,10 +1971,15 @@ func (f *e1func) branch(st *fstate, cond ast.Expr, val bool) []*fstate {
 			return f.branchExpr(st, cond, val)
 		}
 		a, b := f.term(tag), f.term(cond)
+		fs := []*Term{fact("neq", a, b)}
 		if val {
-			return one(st.with(fact("eq", a, b)))
+			fs = []*Term{fact("eq", a, b)}
 		}
-		return one(st.with(fact("neq", a, b)))
+		for _, x := range f.expandDefs(st, fs[0]) {
+			fs = append(fs, x)
+		}
+		fs = append(fs, deriveFacts(st, fs)...)
+		return one(st.with(fs...))
 	}
 	if x, ok := f.caseType[cond]; ok {
 		if x == nil {
@@ -2318,6 +2336,23 @@ func builtinHolds(st *fstate, p *Term, b Bind) (bool, bool) {
 		if len(g.A) == 1 && !hasPV(g) {
 			return g.A[0].K == "const", true
 		}
+	case "lt":
+		// n < len(x) when len(x) is known to differ from 0..n (a length is never negative)
+		if len(g.A) == 2 && !hasPV(g) && g.A[0].K == "const" && g.A[1].K == "call" && g.A[1].S == "len" {
+			var n int
+			if _, err := fmt.Sscan(g.A[0].S, &n); err == nil && n >= 0 && n <= 4 {
+				all := true
+				for k := 0; k <= n; k++ {
+					c := mk("const", fmt.Sprint(k))
+					if !st.has(fact("neq", g.A[1], c)) && !st.has(fact("neq", c, g.A[1])) {
+						all = false
+					}
+				}
+				if all {
+					return true, true
+				}
+			}
+		}
 	case "nonnil":
 		if len(g.A) == 1 && !hasPV(g) {
 			if g.A[0].K == "lit" || (g.A[0].K == "op" && g.A[0].S == "&") {
@@ -2365,6 +2400,36 @@ func solve(st *fstate, clauses []Clause, b Bind) solveResult {
 						return true
 					}
 				}
+				// the value of an interpreted helper call: eq(res(i, call), V) recorded when the helper returned
+				var virts []*Term
+				lk := lhs.Key()
+				rk := ""
+				if lhs.K == "call" || lhs.K == "mcall" {
+					rk = mk("res", "0", lhs).Key()
+				}
+				for _, key := range keys {
+					fc := st.facts[key]
+					if fc.S != "eq" || len(fc.A) != 2 {
+						continue
+					}
+					for j := 0; j < 2; j++ {
+						if fc.A[j].Key() != lk && (rk == "" || fc.A[j].Key() != rk) {
+							continue
+						}
+						v := fc.A[1-j]
+						if len(p.A) == 2 {
+							virts = append(virts, fact("def", lhs, v))
+						} else if v.K == "res" && len(v.A) == 1 {
+							virts = append(virts, fact("def", lhs, v.A[0], mk("const", v.S)))
+						}
+					}
+				}
+				for _, virt := range virts {
+					nb := b.clone()
+					if unify(p, virt, nb) && matchAll(pats, i+1, nb, append(used, "by returned value "+virt.String()), k) {
+						return true
+					}
+				}
 			}
 		}
 		if holds, decided := builtinHolds(st, p, b); decided {
@@ -2378,7 +2443,11 @@ func solve(st *fstate, clauses []Clause, b Bind) solveResult {
 		for _, key := range keys {
 			fc := st.facts[key]
 			if fc.S != p.S {
-				continue
+				if p.S == "def" && fc.S == "defx" {
+					fc = &Term{K: "fact", S: "def", A: fc.A}
+				} else {
+					continue
+				}
 			}
 			nb := b.clone()
 			if unify(p, fc, nb) {
